@@ -150,6 +150,15 @@ def run(tier, seed, flavour="native"):
             red = reducer.reduce(text, still, budget_s=90)
         chk.violation("evaluating a %s input fails internally at %s: %s -- reduced input: %s" % (inputs[culprit][0], s, f[:200], red[:300]),
                       {"kind": "input", "src_hex": inputs[culprit][1].hex(), "reduced": red, "site": s, "limits": limits, "stderr": stderr[-1500:]})
+    # open findings with a crash reproducer: reported while they still crash, silent once they no longer do
+    for k in chk.open_known:
+        rep = k.get("reproducer", {})
+        if rep.get("kind") != "crash":
+            continue
+        rr = runner.run_bvh(binary, "session", [session([rep["src"].encode("utf8")], None)], "c02k", shards=1, timeout=60)[0]
+        ff = str(rr.get("fatal") or "")
+        if ff.startswith(("panic", "died")):
+            chk.known_finding(k, "%s: `%s` -> %s" % (k["title"], rep["src"][:120], ff[:60]))
     chk.assumptions = ["inputs whose bracket nesting exceeds 64 are outside the quantifier and skipped (%d skipped)" % skipped,
                        "memory exhaustion and watchdog hits are inconclusive",
                        "flavour: %s (debug assertions and overflow checks on)" % flavour]
